@@ -85,8 +85,8 @@ def lineage_exec(dec):
 
 class HeartbeatUnit(Unit):
     name = 'OpenFilterLineage._heartbeat_loop / _emit_event / emit_*'
-    targets = tuple(f'{LINEAGE}::OpenFilterLineage.{m}' for m in ('_heartbeat_loop', '_emit_event', 'emit_start', 'emit_complete', 'emit_stop', 'stop_lineage_heart_beat', 'start_lineage_heart_beat'))
-    required_covers = ('heartbeat ended', 'emit checked', 'emitter reused')
+    targets = tuple(f'{LINEAGE}::OpenFilterLineage.{m}' for m in ('_heartbeat_loop', '_emit_event', 'emit_start', 'emit_complete', 'emit_stop', 'stop_lineage_heart_beat', 'start_lineage_heart_beat', 'update_heartbeat_lineage'))
+    required_covers = ('heartbeat ended', 'emit checked', 'emitter reused', 'updated after the end')
     mutants = (
         ('run id regenerated per event', f'{LINEAGE}::OpenFilterLineage._emit_event', 'run_obj = run or Run(runId=self.run_id, facets=run_facets)', 'run_obj = run or Run(runId=self.get_run_id(), facets=run_facets)', 'C18.run_id'),
         ('heartbeat ends without COMPLETE', f'{LINEAGE}::OpenFilterLineage._heartbeat_loop', '        self.emit_complete()', '        pass', 'C18.heartbeat'),
@@ -94,7 +94,7 @@ class HeartbeatUnit(Unit):
     )
 
     def shapes(self, tier):
-        return ['heartbeat', 'emit_start', 'emit_stop', 'emit_complete', 'reuse']
+        return ['heartbeat', 'emit_start', 'emit_stop', 'emit_complete', 'reuse', 'after_end:emit_stop', 'after_end:emit_complete']
 
     def run(self, shape, dec):
         ex, me, client, rid = lineage_exec(dec)
@@ -118,6 +118,23 @@ class HeartbeatUnit(Unit):
             kinds = [e.f['eventType'] for e in sent]
             O('C18.heartbeat: the heartbeat thread ends with exactly one COMPLETE, after RUNNING*', kinds.count('COMPLETE') == 1 and kinds[-1] == 'COMPLETE' and all(k == 'RUNNING' for k in kinds[:-1]))
             O('C18.heartbeat: it ends only after the stop event was set', me.f['_stop_event'].f['isset'] is True)
+        elif shape.startswith('after_end'):
+            # the metrics exporter keeps calling update_heartbeat_lineage() after the run is over (its periodic reader is never shut down): nothing may follow the terminal event
+            term = shape.split(':')[1]
+            ex.models['threadingmod'] = type('TM', (), {'m_Thread': staticmethod(lambda ex_, o, **kw: Obj('newthread')), 'm_Event': staticmethod(lambda ex_, o: Obj('hbevent', isset=False))})
+            ex.models['newthread'] = type('NT', (), {'m_start': staticmethod(lambda ex_, o: None), 'm_is_alive': staticmethod(lambda ex_, o: True), 'm_join': staticmethod(lambda ex_, o, *a, **k: None)})
+            for g in ex.modules.values():
+                g['threading'] = Obj('threadingmod')
+            for meth, args, kw in (('emit_start', [{'cfg': 1}], {}), ('start_lineage_heart_beat', [], {}), ('update_heartbeat_lineage', [], {'facets': {'m': 1}}),
+                                   ('stop_lineage_heart_beat', [], {}), (term, [], {})):
+                ex.call_closure(closure(LINEAGE, f'OpenFilterLineage.{meth}'), [me] + args, kw)
+            n_end = len(sent)
+            ex.call_closure(closure(LINEAGE, 'OpenFilterLineage.update_heartbeat_lineage'), [me], {'facets': {'m': 2}})
+            ex.outcome = 'return'
+            ex.cover('updated after the end')
+            O('C18.nothing_after_terminal: a facets update that arrives after the terminal event of the run emits nothing', len(sent) == n_end)
+            O('C18.nothing_after_terminal: the last event of the history is the terminal one', bool(sent) and sent[-1].f['eventType'] in ('COMPLETE', 'ABORT'))
+            return ex
         elif shape == 'reuse':
             # a second run on the same (class-level) emitter: START, heartbeat (re)started while the stop event of the previous run is still set, then a terminal event
             me.f['_stop_event'].f['isset'] = True
@@ -173,7 +190,35 @@ def replay_reuse(failure):
     return {'confirmed': bool(obs), 'inputs': 'two runs on one emitter (emit_start, heartbeat start/stop, emit_stop)', 'observed': obs or 'one run id per run', 'required': 'all events of a run carry the same run id'}
 
 
-HeartbeatUnit.replay = lambda self, failure: replay_reuse(failure)
+def replay_after_end(failure):
+    """native: a real OpenFilterLineage with a capturing client: START, heartbeat on, facets update, heartbeat off, terminal event, then a late facets update"""
+    import os, time
+    os.environ.pop('OPENLINEAGE_DISABLED', None)
+    from openfilter.observability.lineage import OpenFilterLineage
+    obs = []
+    for term in ('emit_stop', 'emit_complete'):
+        events = []
+
+        class Capture:
+            def emit(self, ev):
+                events.append(str(getattr(ev.eventType, 'name', ev.eventType)))
+        em = OpenFilterLineage(client=Capture(), interval=1, filter_name='F')
+        em.emit_start({'cfg': 1})
+        em.start_lineage_heart_beat()
+        em.update_heartbeat_lineage(facets={'m': 1})
+        em.stop_lineage_heart_beat()
+        if em._thread is not None:
+            em._thread.join(3)
+        getattr(em, term)()
+        n = len(events)
+        em.update_heartbeat_lineage(facets={'m': 2})
+        time.sleep(0.05)
+        if len(events) != n:
+            obs.append(f'after {term}: a late update_heartbeat_lineage() emitted {events[n:]} (history {events})')
+    return {'confirmed': bool(obs), 'inputs': 'run ended, then the metrics exporter delivers one more snapshot', 'observed': obs or 'nothing follows the terminal event', 'required': 'nothing after the terminal event'}
+
+
+HeartbeatUnit.replay = lambda self, failure: replay_after_end(failure) if 'nothing_after_terminal' in failure.get('obligation', '') else replay_reuse(failure)
 
 
 def extra_checks(tier, seed, pool):
